@@ -7,8 +7,10 @@ import TracklibVerif.Lemmas.SeqSlice
 import TracklibVerif.Lemmas.ObsTime
 /-! # C04 — sequence operations on a track select exactly the designated observations
 
-Property theorems only (helper lemmas: `Lemmas/Seq*.lean`). The model is `Model/Seq.lean` (the operators)
-and `Model/SeqOps.lean` (reads by name, the remaining entry points, `sortRadix`, operators in sequence);
+Property theorems only (helper lemmas: `Lemmas/Seq*.lean`); continued in `Props/C04Slice.lean` (slices with a negative
+step, what the code does where the arguments designate no observation) and `Props/C04More.lean` (`reverse`, `makeOdd`,
+`makeEven`, `setObs`, `getFirstObs`, `getLastObs`, `track / n`, `removeObsList` with timestamps; model `Model/SeqMore.lean`).
+The model is `Model/Seq.lean` (the operators) and `Model/SeqOps.lean` (reads by name, the remaining entry points, `sortRadix`, operators in sequence);
 observations are opaque records `(tag, time, feature values)`, so "the same observation with its own
 position and timestamp" is equality of records; a track carries its feature TABLE, the pairs (name, column),
 and "its own feature values" is what the observation reads by name through the table of the track it is in
@@ -552,7 +554,7 @@ theorem getitemInt_spec (tr : Track) (i : Nat) (hi : i < tr.pts.length) :
 /-- `track[a:b:c]` with a step `c ≥ 1`: with `s`, `e` the bounds `a`, `b` brought into `0..size` as Python does
 (a negative bound counts from the end, an absent one is `0` / `size`, everything is clamped), the result holds
 exactly the observations at the positions `s, s+c, s+2c, … < e`, in order — it is `(track[a:b]) % c` — with the
-feature table of the source. (A negative step is modelled and compared with the code, not covered here.) -/
+feature table of the source. (A negative step: `getitemSlice_neg_spec` in `Props/C04Slice.lean`.) -/
 theorem getitemSlice_spec (tr : Track) (a b : Option Int) (c : Nat) (hc : 1 ≤ c) :
     ∃ s e : Nat, s ≤ tr.pts.length ∧ e ≤ tr.pts.length ∧
       sliceBounds tr.pts.length a b (c : Int) = ((s : Int), (e : Int)) ∧
